@@ -39,8 +39,17 @@ Definition tj (u o : nat) : bool :=
   match to_json_objects f1 f2 f3 attr_ent2 attr_rev2 (fun _ => false) obj_ent2 (rules_of t) (groups_of u) (roles_of u) labels_of [o] with
   | Some _ => true | None => false end.
 
+(* a1 <-> b1, a2 <-> b2 through A.bs / B.a *)
+Definition related2 (o : nat) : list nat := match o with 0 => [2] | 1 => [3] | 2 => [0] | 3 => [1] | _ => [] end.
+Definition tji (u o : nat) : bool :=
+  match to_json_include f1 f2 f3 attr_ent2 attr_rev2 (fun _ => false) obj_ent2 (rules_of t) (groups_of u) (roles_of u) labels_of related2 o with
+  | Some _ => true | None => false end.
+
+(* ... to_json of single objects; to_json with include when everything is loaded; the same in a fresh session (the model does not
+   distinguish the last two: the answer must not depend on what happens to be loaded) *)
 Definition user_rows (u : nat) : list bool :=
-  map (hp u 0) targets ++ map (hp u 1) targets ++ map (cv u) targets ++ map (tj u) [0; 1; 2; 3].
+  map (hp u 0) targets ++ map (hp u 1) targets ++ map (cv u) targets ++ map (tj u) [0; 1; 2; 3]
+  ++ map (tji u) [0; 1; 2; 3] ++ map (tji u) [0; 1; 2; 3].
 Definition table : list bool := user_rows 0 ++ user_rows 1 ++ user_rows 2.
 End Tab.
 
